@@ -278,8 +278,8 @@ def gen_cases(rng, tier):
         cases.append(("subdivide", a, b, rng.choice([1, 2, 3, 7, rng.randint(1, 90)])))
     for _ in range(300 * N):
         l = tuple(rng.randint(-5, 60) for _ in range(rng.choice([0, 1, 2, 5, 9, 14])))
-        gap = rng.choice([None, 1, 2, 3, 10])
-        spread = rng.choice([None, 1, 3, 6, 7, 20])
+        gap = rng.choice([None, 0, 1, 2, 3, 10])
+        spread = rng.choice([None, 0, 1, 3, 6, 7, 20])
         cases.append(("gidx", l, gap, spread))
         segs = tuple((x, x + rng.randint(1, 9)) for x in l)
         cases.append(("gseg", segs, gap, spread))
